@@ -51,6 +51,10 @@ def make_sources(root: Path, rng):
     files["zext/emoji_u1f605.svg"] = (f'<svg xmlns="http://www.w3.org/2000/svg" viewBox="0 0 100 100"><path d="{shared}" fill="#0000ff" opacity="0.8"/>'
                                       f'<path d="{shared}" transform="translate(20 5)" fill="#ffcc00" opacity="0.3"/></svg>')
     names += ["proj/svgs/emoji_u1f604.svg", "zext/emoji_u1f605.svg"]
+    # a 14-code-point sequence: its glyph name is too long and gets replaced by a digest, which must be the same digest in every process
+    long_name = "proj/svgs/emoji_u1f9d1_1f3ff_200d_1f467_1f3fb_200d_1f467_1f3fb_200d_1f9d1_1f3ff_200d_1f469_1f3ff.svg"
+    files[long_name] = cli.simple_svg(2, vb=100)
+    names.append(long_name)
     cli.write_svgs(root, files)
     return names
 
@@ -100,7 +104,9 @@ def variant_build(job):
         import random
         random.Random(v["perm"]).shuffle(order)
     args = [os.path.relpath(root / n, cwd) if v.get("relative", True) else str(root / n) for n in order]
-    rc, out = cli.nanoemoji(["--color_format", fmt, "--build_dir", build, *args], cwd, env)
+    # glyph names are part of the output wherever they are kept: ask for them in the TrueType COLR builds too (OT-SVG formats keep them anyway)
+    extra = ["--keep_glyph_names"] if fmt in ("glyf_colr_1", "glyf") else []
+    rc, out = cli.nanoemoji(["--color_format", fmt, *extra, "--build_dir", build, *args], cwd, env)
     fonts = list(Path(build).glob("Font.*tf"))
     if rc != 0 or not fonts:
         return {"id": v["id"], "rc": rc, "tail": out[-300:], "failed": [ln for ln in out.splitlines() if "FAILED" in ln or "Error" in ln or "error" in ln][:6], "v": v}
